@@ -1,7 +1,7 @@
 CONSTANTS
   MaxLen = 2
   NumRetries = {0, 5}
-  Defects = {"RetryAfterResponse"}
+  Defects = {"PerTryTimerSurvivesRetry"}
 SPECIFICATION Spec
 INVARIANTS WithinGlobalTimeout ActionsAppliedOnce AttemptsBounded FreshHost RetryMade ReplyIsLast BudgetSpentOnAttempts
 PROPERTY RetryOnlyIfConfigured
